@@ -504,7 +504,13 @@ func (t *Target) gnmiUpdate(n *pb.Notification) (*ctree.Leaf, error) {
 		suffix = nil
 	}
 	path := joinPrefixAndPath(n.Prefix, suffix)
+	if len(path) == 0 {
+		return nil, errors.New("update has an empty path")
+	}
 	if path[0] == metadata.Root {
+		if len(path) < 2 {
+			return nil, fmt.Errorf("invalid metadata path %q", path)
+		}
 		realData = false
 		u := n.Update[0]
 		switch path[1] {
